@@ -452,3 +452,61 @@ Proof.
   - unfold ed_remove. destruct (ed_find n (m_opts (p_msg q))); cbn; tauto.
   - unfold ed_token. repeat case_if; cbn; tauto.
 Qed.
+
+(* ---- refused edits; when an edit is refused ---- *)
+
+Lemma ed_add_opt_raw_refused q n v : fst (add_opt_raw q n v) = false -> snd (add_opt_raw q n v) = q.
+Proof. unfold add_opt_raw. repeat case_if; cbn [fst snd]; congruence. Qed.
+
+(* a refused edit leaves the message as it was - except that coap_add_option_internal may already
+   have put the implicit Hop-Limit in (RFC 8768) before it refuses Proxy-Uri / Proxy-Scheme *)
+Theorem ed_apply_refused q e :
+  fst (ed_apply q e) = false ->
+  snd (ed_apply q e) = q \/
+  exists n v, (e = EdInsert n v \/ e = EdUpdate n v) /\ ed_hop_trigger (p_msg q) n = true /\
+              snd (ed_apply q e) = snd (add_opt_raw q 16 [16]).
+Proof.
+  assert (Hins : forall n v, fst (ed_insert q n v) = false ->
+    snd (ed_insert q n v) = q \/
+    (ed_hop_trigger (p_msg q) n = true /\ snd (ed_insert q n v) = snd (add_opt_raw q 16 [16]))).
+  { intros n v. unfold ed_insert, ed_add_internal. case_if.
+    - intros H. left. apply ed_add_opt_raw_refused. assumption.
+    - case_if; [left; reflexivity|]. intros H. apply ed_add_opt_raw_refused in H. rewrite H.
+      unfold ed_hop_step. destruct (ed_hop_trigger (p_msg q) n); [right; tauto|left; reflexivity]. }
+  destruct e as [n v|n v|n|t]; cbn [ed_apply].
+  - intros H. destruct (Hins n v H) as [->|[H1 H2]]; [left; reflexivity|].
+    right. exists n, v. tauto.
+  - unfold ed_update. destruct (ed_find n (m_opts (p_msg q))).
+    + case_if; cbn [fst snd]; [discriminate|left; reflexivity].
+    + intros H. destruct (Hins n v H) as [->|[H1 H2]]; [left; reflexivity|].
+      right. exists n, v. tauto.
+  - unfold ed_remove. destruct (ed_find n (m_opts (p_msg q))); cbn [fst snd];
+      [discriminate|left; reflexivity].
+  - unfold ed_token. repeat case_if; cbn [fst snd]; try discriminate; left; reflexivity.
+Qed.
+
+(* coap_remove_option succeeds exactly when an option with that number is present *)
+Theorem ed_remove_succeeds_iff q n :
+  fst (ed_remove q n) = true <-> has_opt n (m_opts (p_msg q)) = true.
+Proof.
+  unfold ed_remove.
+  destruct (ed_find_cases n (m_opts (p_msg q))) as [[-> Hn]|(l1 & w & l2 & Ho & Hf & ->)];
+    cbn [fst].
+  - apply ed_has_opt_false in Hn. rewrite Hn. split; discriminate.
+  - split; [|reflexivity]. intros _. unfold has_opt. rewrite Ho, existsb_app.
+    cbn [existsb fst]. rewrite Z.eqb_refl, orb_true_r. reflexivity.
+Qed.
+
+(* coap_update_token succeeds exactly when the token can be encoded and the message with the new
+   token does not exceed max_size (shrinking or equal-size replacement always succeeds) *)
+Theorem ed_token_succeeds_iff q t :
+  fst (ed_token q t) = true <->
+  len t <= 65804 /\
+  (len (token_area t) <= len (token_area (m_token (p_msg q))) \/ p_max q = 0 \/
+   used (p_msg (ed_with_token q t)) <= p_max q).
+Proof.
+  unfold ed_token, fits, used, ed_with_token, content_area.
+  cbn [p_msg p_max m_token m_opts m_payload].
+  destruct (65804 <? len t) eqn:E; cbn [fst]; [split; [discriminate|lia]|].
+  case_if; cbn [fst]; split; intros H; try discriminate; try reflexivity; lia.
+Qed.
